@@ -540,6 +540,12 @@ def r_state(prog, tier):
                 obs.append(Ob('R-STATE/G1', f.fq, 'no mutable default argument', False,
                               'default `%s` is created once and shared by every call' % unparse(d),
                               construct='default:' + unparse(d), line=d.lineno))
+        for dec in f.node.decorator_list:
+            dt = unparse(dec)
+            if any(k in dt for k in ('lru_cache', 'functools.cache', 'cached_property', 'memoize', 'cache(')) or dt in ('cache',):
+                obs.append(Ob('R-STATE/G1', f.fq, 'no memoising decorator', False,
+                              '`@%s` keeps results between calls, keyed by object identity: after a tree is changed in place '
+                              'the old result is returned' % dt, construct='decorator:' + dt, line=dec.lineno))
         for (r, text, line) in _global_writes(f):
             key = (f.fq, r)
             ok = key in ALLOWED_STATE
@@ -688,6 +694,29 @@ def r_state(prog, tier):
                               % unparse(it), ok, why_ok if ok else
                               'iteration over a set decides the order of written lines', construct='g5:' + f.fq,
                               line=n.lineno))
+    for mod in ('treeoutput', 'grammaroutput', 'transitionoutput'):
+        for f in sorted(prog.modules[mod].funcs.values(), key=lambda x: x.fq):
+            for n in walk_own(f.node):
+                if not isinstance(n, (ast.ListComp, ast.GeneratorExp)):
+                    continue
+                it = n.generators[0].iter
+                src = it
+                if isinstance(it, ast.Name):
+                    d = [v for (_, v) in name_defs(f, it.id) if isinstance(v, ast.AST)]
+                    src = d[0] if len(d) == 1 else it
+                if isinstance(src, ast.Call) and unparse(src.func) in ('set', 'frozenset') or isinstance(src, (ast.Set, ast.SetComp)):
+                    # order-insensitive consumers are fine
+                    par = None
+                    for x in ast.walk(f.node):
+                        for c in ast.iter_child_nodes(x):
+                            if c is n:
+                                par = x
+                    fn = unparse(par.func) if isinstance(par, ast.Call) else ''
+                    if fn in ('sum', 'len', 'any', 'all', 'max', 'min', 'set', 'sorted', 'frozenset'):
+                        continue
+                    obs.append(Ob('R-STATE/G5', f.fq, 'what is written does not depend on set (hash) order: `%s`' % unparse(n)[:60],
+                                  False, 'a list built by iterating a set is written out: the order of the items changes from '
+                                  'run to run', construct='g5-comp:' + unparse(n)[:60], line=n.lineno))
     # ---- G6 writer purity
     obs.extend(_writer_purity(prog))
     return obs, {}
